@@ -475,7 +475,8 @@ where
             let token = &ctx.tokens[*token_index];
 
             match token.kind {
-                TokenKind::Function => {
+                // `macro name(..){..}` is parsed into the same node as `fn name(..){..}`
+                TokenKind::Function | TokenKind::Macro => {
                     result = result.append(emit_token_with_trivia(*token_index, ctx, allocator));
                     result = result.append(allocator.space());
                     seen_fn = true;
